@@ -373,3 +373,149 @@ def gen_misuse(rng, n):
         sc = misuse_script(rng, k)
         out.append("u%d script %d %s %s" % (i, k, " ".join(hx(m) for m in msgs), sc))
     return out
+
+
+# ------------------------------------------------------------------------------- responses (C06/C07)
+def lower(b):
+    return bytes((c + 32) if 65 <= c <= 90 else c for c in b)
+
+
+def name_key(labels):
+    return tuple(lower(l) for l in labels)
+
+
+def recase_labels(rng, labels):
+    return [bytes((c ^ 0x20) if (65 <= c <= 90 or 97 <= c <= 122) and rng.random() < 0.4 else c for c in l) for l in labels]
+
+
+def gen_response(rng):
+    """a response AST built around a CNAME graph; returns (ast, D, gates) where gates describes which
+    non-answer conditions were injected"""
+    names = [[small_label(rng), b"example", b"com"], [b"www", b"example", b"com"], [b"cdn", b"net"], [b"a", b"b", b"c", b"net"], [],
+             [small_label(rng)], [b"x-y", b"org"]]
+    rng.shuffle(names)
+    D = rng.choice(TYPED)
+    qname = names[0]
+    qclass = 1 if rng.random() < 0.85 else 3
+    chain_len = rng.choice([0, 0, 1, 1, 2, 3, 5])
+    chain = names[:chain_len + 1]
+    answers = []
+    mode = rng.random()
+    def rec(owner, ty, cl=None, rd=None, ttl=None):
+        return {"owner": recase_labels(rng, owner), "type": ty, "class": qclass if cl is None else cl,
+                "ttl": rng.choice([0, 5, 60, 3600, 2 ** 31]) if ttl is None else ttl,
+                "rdata": rd if rd is not None else rand_rdata(rng, ty, names)}
+    for i in range(chain_len):
+        answers.append(rec(chain[i], 5, rd=("Name", 5, recase_labels(rng, chain[i + 1]))))
+    final = chain[-1]
+    if mode < 0.7:
+        for _ in range(rng.choice([1, 1, 2, 3])):
+            answers.append(rec(final, D))
+    # decoys: wrong class, wrong type, wrong owner, extra CNAMEs (forks), loops
+    for _ in range(rng.choice([0, 0, 1, 2, 3])):
+        k = rng.random()
+        if k < 0.2:
+            answers.append(rec(final, D, cl=rng.choice([3, 4, 255])))
+        elif k < 0.4:
+            answers.append(rec(final, rng.choice([t for t in TYPED if t != D])))
+        elif k < 0.6:
+            answers.append(rec(rng.choice(names), D))
+        elif k < 0.8:
+            a, b = rng.choice(chain), rng.choice(names)
+            answers.append(rec(a, 5, rd=("Name", 5, recase_labels(rng, b))))
+        else:
+            a = rng.choice(names)
+            answers.append(rec(a, 5, rd=("Name", 5, recase_labels(rng, a))))
+    if rng.random() < 0.5:
+        rng.shuffle(answers)
+    auth = [rec(rng.choice(names), rng.choice([2, 6, D])) for _ in range(rng.choice([0, 0, 1, 2]))]
+    addl = [rec(rng.choice(names), rng.choice([1, 28, D])) for _ in range(rng.choice([0, 0, 1, 2]))]
+    gates = {}
+    flags = 0x8000 | rng.choice([0, 0x0100, 0x0180, 0x0400])
+    if rng.random() < 0.12:
+        flags &= 0x7FFF
+        gates["query"] = True
+    if rng.random() < 0.12:
+        flags |= 0x0200
+        gates["tc"] = True
+    rc4 = 0
+    if rng.random() < 0.15:
+        rc4 = rng.choice([1, 2, 3, 5, 15])
+    flags |= rc4
+    ext = None
+    if rng.random() < 0.5:
+        ext = rng.choice([0, 0, 0, 1, 16, 255])
+        opt = {"owner": [], "type": 41, "class": rng.choice([512, 4096]), "ttl": (ext << 24) | (rng.choice([0, 1]) << 16) | rng.choice([0, 0x8000]),
+               "rdata": ("Opt", rbytes(rng, rng.choice([0, 0, 4])))}
+        where = rng.random()
+        if where < 0.7:
+            addl.insert(rng.randrange(len(addl) + 1), opt)
+        elif where < 0.85:
+            auth.insert(rng.randrange(len(auth) + 1), opt)
+        else:
+            addl.append(opt)
+            addl.append(dict(opt, ttl=(rng.choice([0, 1, 255]) << 24)))   # a second OPT: only the first counts
+    nq = 1
+    if rng.random() < 0.1:
+        nq = rng.choice([0, 2, 3])
+        gates["qd"] = nq
+    qs = [(recase_labels(rng, qname), D, qclass)] + [(rand_name(rng), 1, 1) for _ in range(max(0, nq - 1))]
+    qs = qs[:nq] if nq else []
+    ast = {"id": rng.getrandbits(16), "flags": flags, "qd": qs, "secs": [answers, auth, addl]}
+    return ast, D, qname, qclass
+
+
+def expected_rrset(ast, D, qname, qclass):
+    """code-blind oracle: the gates in order, then the CNAME-chain resolver over the AST"""
+    flags = ast["flags"]
+    if not flags & 0x8000:
+        return "err:BadMessageType(false)"
+    if flags & 0x0200:
+        return "err:MessageTruncated"
+    if len(ast["qd"]) != 1:
+        return "err:BadQuestionsCount(%d)" % len(ast["qd"])
+    rc = flags & 0xF
+    for r in ast["secs"][1] + ast["secs"][2]:
+        if r["type"] == 41:
+            rc |= ((r["ttl"] >> 24) & 0xFF) << 4
+            break
+    if rc != 0:
+        return "err:BadResponseCode(%d)" % rc
+    answers = list(ast["secs"][0])
+    name = list(ast["qd"][0][0])
+    qclass = ast["qd"][0][2]
+    while True:
+        hits = [r for r in answers if name_key(r["owner"]) == name_key(name) and r["class"] == qclass and r["type"] == D]
+        if hits:
+            return ("ok", name, qclass, min(r["ttl"] for r in hits), hits)
+        cn = [r for r in answers if name_key(r["owner"]) == name_key(name) and r["class"] == qclass and r["type"] == 5]
+        if not cn:
+            return "err:NoAnswer"
+        answers.remove(cn[0])
+        name = list(cn[0]["rdata"][2])
+
+
+def fmt_rdata(rd):
+    k = rd[0]
+    nm = lambda ls: (b"".join(l + b"." for l in ls) or b".").hex()
+    if k == "A":
+        return "D(A,%d)" % rd[1]
+    if k == "Aaaa":
+        return "D(Aaaa,%d)" % rd[1]
+    if k == "Name":
+        return "D(Name,%d,%s)" % (rd[1], nm(rd[2]))
+    if k == "Hinfo":
+        return "D(Hinfo,%s,%s)" % (hx(rd[1]), hx(rd[2]))
+    if k == "Wks":
+        return "D(Wks,%d,%d,%s)" % (rd[1], rd[2], hx(rd[3]))
+    if k == "Minfo":
+        return "D(Minfo,%s,%s)" % (nm(rd[1]), nm(rd[2]))
+    if k == "Mx":
+        return "D(Mx,%d,%s)" % (rd[1], nm(rd[2]))
+    if k == "Null":
+        return "D(Null,%s)" % hx(rd[1])
+    if k == "Soa":
+        return "D(Soa,%s,%s,%d,%d,%d,%d,%d)" % ((nm(rd[1]), nm(rd[2])) + tuple(rd[3:8]))
+    if k == "Txt":
+        return "D(Txt,%s)" % hx(b"".join(rd[1]))
+    return "?"
